@@ -438,6 +438,26 @@ fn run_case(case: &str, wasm: &[u8], kind_imp: bool, pick: u64, seed: u64, stats
             }
         }
     }
+    // element segments stay with the function they named: a table slot initialised with the original
+    // function is an internal reference, and internal references keep reaching the original
+    if !kind_imp {
+        if let Some(pos) = a.exports.iter().position(|e| e.kind == Space::Func && e.index == target) {
+            if let Some(e2) = b.exports.get(pos) {
+                for (k, (ea, eb)) in a.elems.iter().zip(b.elems.iter()).enumerate() {
+                    let names = |m_target: u32, e: &decode::AElem| -> Vec<bool> {
+                        match &e.items {
+                            decode::ElemItems::Funcs(fs) => fs.iter().map(|f| *f == m_target).collect(),
+                            decode::ElemItems::Exprs(_, es) => es.iter().map(|c| c.ops().iter().any(|o| o.args.iter().any(|x| *x == decode::Arg::Ref(Space::Func, m_target)))).collect(),
+                        }
+                    };
+                    let (orig, repl) = (names(target, ea), names(e2.index, eb));
+                    if orig.len() == repl.len() && orig.iter().zip(repl.iter()).any(|(o, r)| *o && *r) {
+                        fails.push(("C18:element-segment-retargeted".into(), format!("element segment {} named the replaced function and now names the replacement: only the export may be retargeted", k)));
+                    }
+                }
+            }
+        }
+    }
     // the replacement reads *its own* parameters: every argument the generated body reads is a
     // `local.get` of an index below the parameter count in the emitted function (scratch locals and
     // nothing else sit above)
@@ -456,6 +476,7 @@ fn run_case(case: &str, wasm: &[u8], kind_imp: bool, pick: u64, seed: u64, stats
                         let got_reads = code.ops.iter().filter(|o| o.name == "LocalGet" && matches!(o.args.first(), Some(decode::Arg::Ref(Space::Local, i)) if (*i as usize) < np)).count();
                         if got_reads != want_reads {
                             fails.push(("C18:replacement-does-not-read-its-parameters".into(), format!("the generated body reads {} arguments, the emitted replacement has {} reads of its {} parameters", want_reads, got_reads, np)));
+                            fails.push(("C15:replacement-parameter-not-at-its-position".into(), format!("a replacement body built from the argument locals handed to the builder reads {} arguments, the emitted function has {} reads of its {} parameter positions", want_reads, got_reads, np)));
                         }
                     }
                 }
@@ -473,6 +494,7 @@ fn run_case(case: &str, wasm: &[u8], kind_imp: bool, pick: u64, seed: u64, stats
                 let got: Vec<String> = code.ops.iter().map(|o| o.name.to_string()).collect();
                 if want != got {
                     fails.push(("C18:replacement-body-differs-from-what-was-built".into(), format!("built {:?}, emitted {:?}", want, got)));
+                    fails.push(("C15:built-replacement-body-is-not-what-is-emitted".into(), format!("built {:?}, emitted {:?}", want, got)));
                 }
             }
         } else {
@@ -503,11 +525,20 @@ fn run_case(case: &str, wasm: &[u8], kind_imp: bool, pick: u64, seed: u64, stats
         modtext::module_text(&a, false, false),
         modtext::module_text(&b, false, false)
     );
-    out::corr(case, referenced || !kind_imp, &req, "same");
+    // (C15 looks at this suite for the builder's part only: parameters at their positions, the
+    // built body emitted as built; the behavioural tie belongs to C18)
+    if std::env::var("VERIF_PROPERTY").unwrap_or_default() != "C15" {
+        out::corr(case, referenced || !kind_imp, &req, "same");
+    }
     report(case, fails, &only);
 }
 
-fn report(case: &str, fails: Vec<(String, String)>, only: &str) {
+fn report(case: &str, mut fails: Vec<(String, String)>, only: &str) {
+    if std::env::var("VERIF_PROPERTY").unwrap_or_default() == "C15" {
+        fails.retain(|f| f.0.starts_with("C15:"));
+    } else {
+        fails.retain(|f| !f.0.starts_with("C15:"));
+    }
     if fails.is_empty() {
         out::oracle(case, true, "", "");
     } else {
